@@ -113,3 +113,15 @@ Proof.
     + inversion E; subst. exact P.
   - exact (predecessor_no_internal n o p e Vn Vo E).
 Qed.
+
+(* dns.wire.Parser.get_name(origin) *)
+Lemma parser_get_name_good wire start origin :
+  match parser_get_name wire start origin with
+  | Ok (n, _) => Valid n | Lib _ => True | Internal _ => False end.
+Proof.
+  unfold parser_get_name. pose proof (from_wire_good wire start) as G.
+  destruct (from_wire wire start) as [[n c]|e|e]; cbn [bind fst snd]; auto.
+  destruct origin as [[|x o]|]; try exact G.
+  pose proof (relativize_good n (x :: o) G) as R.
+  destruct (relativize n (x :: o)); cbn [bind good] in *; auto.
+Qed.
